@@ -159,9 +159,12 @@ impl Prop for C17 {
         for _ in 0..(if th { 300 } else { 40 }) { v.push(case(&[("kind", "name".into()), ("ni", "rand".into()), ("seed", rng.next().to_string())])); }
         for pos in 0..48usize { for alt in 0..(if th { 6 } else { 2 }) { v.push(case(&[("kind", "pkcorrupt".into()), ("pos", pos.to_string()), ("alt", alt.to_string()), ("seed", rng.next().to_string())])); } }
         for _ in 0..(if th { 2000 } else { 200 }) { v.push(case(&[("kind", "pkrt".into()), ("seed", rng.next().to_string())])); }
+        // what the TOOL writes (`key gen -o`, appended to keyrings of every shape — with and without a final newline, CRLF, comments) parses back
+        v.extend(crate::props::c14::C14.cases(tier, seed ^ 0x17).into_iter().filter(|c| get(c, "n") == "2" && !get(c, "init").starts_with("big")));
         v
     }
     fn run(&self, c: &Case, m: &mut Model) -> Outcome {
+        if !get(c, "init").is_empty() { return crate::props::c14::C14.run(c, m); }
         let mut o = Outcome::default();
         let kind = get(c, "kind");
         match kind {
